@@ -1,12 +1,12 @@
 import GuppyVerif.Lemmas.C03Shape
 import GuppyVerif.Lemmas.C03Fuel
+import GuppyVerif.Lemmas.C03Wiring
 /-! # C03 — Classical control and data flow behave as in Python  (partial)
 
 Property theorems only.  Models: `Model/Surface.lean` (surface language + Python's semantics; unbounded
 ints and bools, external calls recorded in a trace), `Model/Builder.lean` (`cfg/builder.py`:
 CFGBuilder / ExprBuilder / BranchBuilder, reachability, implicit return, pruning; CFG execution).
-Vocabulary: `Spec/C03.lean` (`hoistSafe`, `userS`), `Lemmas/C03Stmt.lean` (`noFor`),
-`Lemmas/C03Sem.lean` (`loopScoped`).
+Vocabulary: `Spec/C03.lean` (`hoistSafe`, `userS`), `Lemmas/C03Sem.lean` (`loopScoped`).
 
 **Full statement (false of the code, see `Props/C05.lean` for the counterexamples, defect D9):**
 for every surface program `p`, every input store and every environment of external functions, if
@@ -14,9 +14,10 @@ Python's big-step semantics runs `p` to a `return v` (or off the end), then exec
 `CFGBuilder.build` produces halts in the exit block with the same return value, the same trace of
 external calls and the same values of the user variables.
 
-**Proved (`builder_correct_partial`)**: the same, for programs that are *hoist-safe* (`Spec/C03.lean`),
-contain no `for` loop (the `for` template is modelled and tied structurally, its semantics is not
-proved) and use `break`/`continue` only inside loops.  No bound on program size, loop iterations or
+**Proved (`builder_correct_partial`)**: the same, for programs that are *hoist-safe* (`Spec/C03.lean`)
+and use `break`/`continue` only inside loops — including `for x in range(e)` loops, whose template
+(`make_iter` / `iter_next` / `is_some` / `unwrap`) is executed with the iterator semantics of `range`
+(`applyPrim`).  No bound on program size, loop iterations or
 inputs; termination-insensitive (the hypothesis is a terminating Python run).  Unmodelled: expression
 lowering to HUGR and HUGR execution. -/
 namespace GuppyVerif.Builder
@@ -27,12 +28,22 @@ open GuppyVerif.Surface
     final values of all user variables.  `rn` is `returns_none`; falling off the end is only accepted
     by the builder when `rn` holds. -/
 theorem builder_correct_partial (env : Env) (p : Stmt) (rn : Bool) (g : Cfg) (st0 : Store) (o : Outcome) (st' : S)
-    (hu : userS p = true) (hs : hoistSafe p = true) (hn : noFor p = true) (hsc : loopScoped p false = true)
+    (hu : userS p = true) (hs : hoistSafe p = true) (hsc : loopScoped p false = true)
     (hb : buildCfg rn p = .ok g) (hex : Exec env p (st0, []) o st') :
     ∃ (n : Nat) (c : Config), run env g.blocks n ⟨0, 0, (st0, []), none⟩ = some c ∧ c.b = 1 ∧
       c.s.2 = st'.2 ∧ agreeU c.s.1 st'.1 ∧
       ((∃ v, o = .ret v ∧ c.ret = some v) ∨ (o = .normal ∧ c.ret = none ∧ rn = true)) :=
-  buildCfg_correct hu hs hn hsc hb hex
+  buildCfg_correct hu hs hsc hb hex
+
+/-- the verdict `safe` that the driver reports to the harness (a real-code discrepancy on such a program is a
+    VIOLATION, not a known finding) is exactly the hypothesis of `builder_correct_partial` -/
+theorem hsClass_safe (p : Stmt) (h : hsClass p = "safe") : hoistSafe p = true := by
+  unfold hsClass at h
+  split at h
+  · exact absurd h (by decide)
+  · split at h
+    · assumption
+    · exact absurd h (by decide)
 
 /-- the executable Python interpreter that the driver runs (and the harness compares with CPython on every
     generated program) is sound for the big-step relation used above -/
@@ -47,11 +58,11 @@ theorem execFuel_sound' (env : Env) (n : Nat) (s : Stmt) (st : S) (o : Outcome) 
     the return value set. -/
 theorem stmt_builder_correct_partial (env : Env) (s : Stmt) (st st' : S) (o : Outcome) (h : Exec env s st o st')
     (prev b : Nat) (J : Jumps) (σ : BState) (bl : List Block) (il : Bool) (stI : S) (rv : Option Val)
-    (hu : userS s = true) (hs : hoistSafe s = true) (hn : noFor s = true) (hsc : loopScoped s il = true)
+    (hu : userS s = true) (hs : hoistSafe s = true) (hsc : loopScoped s il = true)
     (hJ : JOk J il) (hb : b < σ.len) (ho : (σ.blk b).succs = []) (hx : Ext (build s prev (some b) J σ).1 bl)
     (hag : agreeU stI.1 st.1) (htr : stI.2 = st.2) :
-    PostS env bl J (build s prev (some b) J σ) o ⟨b, (σ.blk b).stmts.length, stI, rv⟩ st' :=
-  (sem_stmt h prev b J σ bl il stI rv hu hs hn hsc hJ hb ho hx hag htr).1
+    PostS env bl J (build s prev (some b) J σ) o ⟨b, (σ.blk b).stmts.length, stI, rv⟩ σ.nextTmp st' :=
+  ((sem_stmt h).1 prev b J σ bl il stI rv hu hs hsc hJ hb ho hx hag htr).1
 
 /-- **after pruning no real edge leads from unreachable into reachable code, and dummy edges point to
     unreachable blocks only** (for every block list, hence for every CFG `buildCfg` returns) -/
@@ -63,18 +74,22 @@ theorem prune_no_edge_into_reachable (bl : List Block) (i : Nat) (hi : i < bl.le
 theorem reachable_closed (blocks : List Block) (rs : List Nat) (h : reachable blocks = some rs) :
     0 ∈ rs ∧ ∀ b ∈ rs, ∀ s ∈ (blkL blocks b).succs, s ∈ rs := reachable_spec h
 
+/-- **the blocks `update_reachable` marks are exactly the blocks reachable from the entry over real edges** -/
+theorem reachable_flags_exact (blocks : List Block) (rs : List Nat) (h : reachable blocks = some rs) (b : Nat) :
+    b ∈ rs ↔ Path blocks 0 b := reachable_iff_path h b
+
 /-- **every block with two successors has a branch predicate, and no block has more than two successors**
     (for every CFG `buildCfg` returns, including its unreachable blocks and after pruning) -/
-theorem two_successors_have_pred (p : Stmt) (rn : Bool) (g : Cfg) (hn : noFor p = true) (hb : buildCfg rn p = .ok g)
+theorem two_successors_have_pred (p : Stmt) (rn : Bool) (g : Cfg) (hb : buildCfg rn p = .ok g)
     (i : Nat) : (blkL g.blocks i).succs.length ≤ 2 ∧ ((blkL g.blocks i).succs.length = 2 → (blkL g.blocks i).pred ≠ none) :=
-  buildCfg_shape hn hb i
+  buildCfg_shape hb i
 
 /-- **`break` / `continue` target the innermost loop**: the body of a `while` is built with the loop's own head
     as `continue` target and its own tail as `break` target, whatever the enclosing targets `J` are (only the
     return target is inherited), and `break` / `continue` link the current block to exactly these targets. -/
 theorem break_continue_target_innermost_loop (c : Expr) (body : Stmt) (prev b : Nat) (J : Jumps) (σ : BState) :
     build (.while c body) prev (some b) J σ =
-      whFin σ.len (build body (σ.len + 1) (some (σ.len + 1)) ⟨J.ret, some σ.len, some (σ.len + 2)⟩ (whS1 c b σ)) ∧
+      loopFin σ.len (build body (σ.len + 1) (some (σ.len + 1)) ⟨J.ret, some σ.len, some (σ.len + 2)⟩ (whS1 c b σ)) ∧
     (∀ t, J.brk = some t → build .brk prev (some b) J σ = (link b t σ, none)) ∧
     (∀ t, J.cont = some t → build .cont prev (some b) J σ = (link b t σ, none)) := by
   refine ⟨build_while_eq c body prev b J σ, ?_, ?_⟩
@@ -83,8 +98,53 @@ theorem break_continue_target_innermost_loop (c : Expr) (body : Stmt) (prev b : 
 
 /-- building never disturbs other blocks: from an open block `b`, a statement only appends to `b`, creates
     fresh blocks, and adds dummy edges; it continues in `b` or in a fresh block, which is open -/
-theorem build_frame (s : Stmt) (prev b : Nat) (J : Jumps) (σ : BState) (hn : noFor s = true) (hb : b < σ.len)
-    (ho : (σ.blk b).succs = []) : GoodS σ b (build s prev (some b) J σ) := build_good s prev b J σ hn hb ho
+theorem build_frame (s : Stmt) (prev b : Nat) (J : Jumps) (σ : BState) (hb : b < σ.len)
+    (ho : (σ.blk b).succs = []) : GoodS σ b (build s prev (some b) J σ) := build_good s prev b J σ hb ho
+
+/-! ## Block wiring (`compiler/cfg_compiler.py`: `compile_bb`, `sort_vars`, `choose_vars_for_tuple_sum`,
+    `insert_return_vars`; model `Model/Wiring.lean`)
+
+The statement's own example of a silent miscompilation is "two same-typed variables swapped across a
+block boundary".  The theorems say this cannot happen: along every edge the ordered list of places a block
+delivers **is** the ordered list of places the successor block binds to its inputs. -/
+
+/-- `sort_vars` only depends on the *set* of places of a row (names distinct) -/
+theorem sort_vars_canonical (l1 l2 : List Wiring.Place) (h : l1.Perm l2) (hn : Wiring.NamesNodup l1) :
+    Wiring.sortVars l1 = Wiring.sortVars l2 := Wiring.sortVars_canonical h hn
+
+/-- **C03 `row_agreement`, block with one successor** -/
+theorem row_agreement_jump (inRow row succIn : List Wiring.Place) (ex : Bool) (hp : row.Perm succIn)
+    (hn : Wiring.NamesNodup row) :
+    Wiring.deliver ⟨inRow, [row]⟩ [ex] = some [if ex then row else Wiring.blockInputs false ⟨succIn, []⟩] :=
+  Wiring.deliver_single inRow row succIn ex hp hn
+
+/-- **C03 `row_agreement`, branching block** (both the plain-output case and the `TupleSum` case), under the
+    linearity post-condition that non-droppable places are live on every branch -/
+theorem row_agreement_branch (inRow first : List Wiring.Place) (rest : List (List Wiring.Place)) (exits : List Bool)
+    (hr : rest ≠ []) (ds : List (List Wiring.Place)) (hd : Wiring.deliver ⟨inRow, first :: rest⟩ exits = some ds)
+    (hnf : Wiring.NamesNodup first) (i : Nat) (row succIn d : List Wiring.Place)
+    (hrow : (first :: rest)[i]? = some row) (hdi : ds[i]? = some d) (hp : row.Perm succIn)
+    (hn : Wiring.NamesNodup row) (hc : ∀ p ∈ first, ∀ q ∈ row, p.name = q.name → p = q)
+    (hlin : (row.filter fun p => !p.droppable).Perm (first.filter fun p => !p.droppable)) :
+    d = Wiring.blockInputs false ⟨succIn, []⟩ :=
+  Wiring.deliver_branch inRow first rest exits hr ds hd hnf i row succIn d hrow hdi hp hn hc hlin
+
+/-- **C03 `return_vars_order`** -/
+theorem return_vars_order (tys : List Bool) (exitIn predOut inRow : List Wiring.Place) (h : predOut = exitIn) :
+    Wiring.deliver ⟨inRow, [(Wiring.insertReturnVars tys exitIn predOut).2]⟩ [true] =
+      some [(Wiring.insertReturnVars tys exitIn predOut).1] ∧
+    (Wiring.insertReturnVars tys exitIn predOut).1.take tys.length =
+      tys.zipIdx.map (fun (d, i) => Wiring.retVar i d) ∧
+    (Wiring.insertReturnVars tys exitIn predOut).1.drop tys.length = exitIn :=
+  Wiring.return_vars_order tys exitIn predOut inRow h
+
+/-- non-vacuity: a branching block whose successors need different droppable places and share the linear `q`
+    (the `TupleSum` path); the successor of branch 1 expects `B, a1, q` -/
+example : Wiring.deliver ⟨[], [[⟨"zz", true⟩, ⟨"q", false⟩, ⟨"a1", true⟩], [⟨"q", false⟩, ⟨"a1", true⟩, ⟨"B", true⟩]]⟩
+      [false, false] =
+    some [[⟨"a1", true⟩, ⟨"zz", true⟩, ⟨"q", false⟩], [⟨"B", true⟩, ⟨"a1", true⟩, ⟨"q", false⟩]] := by decide
+example : Wiring.blockInputs false ⟨[⟨"a1", true⟩, ⟨"q", false⟩, ⟨"B", true⟩], []⟩ =
+    [⟨"B", true⟩, ⟨"a1", true⟩, ⟨"q", false⟩] := by decide
 
 /-! ## Non-vacuity: a program with a loop, `break`, `continue`, early return, unreachable tail, lifted
     expressions and calls satisfies all hypotheses, is accepted, and has a terminating Python run -/
@@ -103,10 +163,20 @@ def exProg : Stmt :=
 
 def exEnv : Env := fun tr f _ => if f == "c" then .bool (decide (tr.length > 4)) else .int (tr.length % 2 + 1)
 
-example : userS exProg = true ∧ hoistSafe exProg = true ∧ noFor exProg = true ∧ loopScoped exProg false = true := by
+example : userS exProg = true ∧ hoistSafe exProg = true ∧ loopScoped exProg false = true := by
   decide
 example : (match buildCfg false exProg with | .ok g => g.blocks.length | .error _ => 0) = 16 := by decide
 example : ∃ o st', Exec exEnv exProg (fun _ => .int 0, []) o st' ∧ o = .ret (.int 3) ∧ st'.2.length = 8 := by
   refine ⟨_, _, execFuel_sound exEnv 100 exProg (fun _ => .int 0, []) _ _ rfl, ?_, ?_⟩ <;> decide
+
+/-- `for i in range(x if c() else 3): (if i == 1: continue); y += f(i)` then `return y` -/
+def exFor : Stmt :=
+  .cons (.for (.user "i") (.un (.prim .range) (.ite (.call0 "c") (.var (.user "x")) (.num 3)))
+    (.cons (.ite (.bi (.cmp .eq) (.var (.user "i")) (.num 1)) (.cons .cont .nil) .nil)
+    (.cons (.aug (.user "y") .add (.un (.call1 "f") (.var (.user "i")))) .nil)))
+  (.cons (.ret (.var (.user "y"))) .nil)
+example : userS exFor = true ∧ hoistSafe exFor = true ∧ loopScoped exFor false = true := by decide
+example : ∃ o st', Exec exEnv exFor (fun _ => .int 0, []) o st' ∧ o = .ret (.int 3) ∧ st'.2.length = 3 := by
+  refine ⟨_, _, execFuel_sound exEnv 100 exFor (fun _ => .int 0, []) _ _ rfl, ?_, ?_⟩ <;> decide
 
 end GuppyVerif.Builder
